@@ -282,6 +282,23 @@ def check(jobs):
           f"{len(ms) - det - err} silent; {time.time() - t0:.0f}s")
 
 
+def recheck(jobs):
+    """re-run the checkers on the survivors of checks and tests only (after the checks were strengthened)"""
+    ms = {json.loads(l)["id"]: json.loads(l) for l in open(os.path.join(OUT, "mutants.jsonl"))}
+    chk = json.load(open(os.path.join(OUT, "check.json")))
+    tst = json.load(open(os.path.join(OUT, "tests.json")))
+    todo = [ms[int(k)] for k, passed in tst.items() if passed and not any(v.startswith("V") for v in chk[k].values())]
+    t0 = time.time()
+    n_new = 0
+    with ProcessPoolExecutor(max_workers=jobs) as ex:
+        for k, (mid, res) in enumerate(ex.map(_check_one, todo, chunksize=4)):
+            chk[str(mid)] = res
+            if any(v.startswith("V") for v in res.values()):
+                n_new += 1
+    json.dump(chk, open(os.path.join(OUT, "check.json"), "w"))
+    print(f"{len(todo)} survivors re-checked: {n_new} now reported as VIOLATION; {time.time() - t0:.0f}s")
+
+
 def _test_one(args):
     m, base = args
     d = f"/tmp/mut/w{os.getpid()}"
@@ -337,4 +354,4 @@ def report():
 if __name__ == "__main__":
     cmd = sys.argv[1] if len(sys.argv) > 1 else "generate"
     jobs = int(sys.argv[sys.argv.index("--jobs") + 1]) if "--jobs" in sys.argv else 12
-    {"generate": generate, "check": lambda: check(jobs), "tests": lambda: tests(jobs), "report": report}[cmd]()
+    {"generate": generate, "check": lambda: check(jobs), "tests": lambda: tests(jobs), "report": report, "recheck": lambda: recheck(jobs)}[cmd]()
